@@ -44,8 +44,9 @@ func (obj Symbol) Readably(b []byte, p *Printer) []byte {
 // needPipes returns true if the name has to be written between |bars| to be
 // read back as this symbol.
 func (obj Symbol) needPipes() bool {
-	for _, c := range []byte(obj) {
-		if needPipeMap[c] == 'x' {
+	for i, c := range []byte(obj) {
+		// An & starts a token (&rest) but is not accepted inside of one.
+		if needPipeMap[c] == 'x' && (c != '&' || 0 < i) {
 			return true
 		}
 	}
